@@ -117,7 +117,8 @@ func ZZ_C20_Loads() {
 			if !p {
 				vAssert(inv == before+1, "c20l.get_miss_invokes_the_loader_once")
 				vAssert(panicked == (out == 3), "c20l.loader_panic_surfaces")
-			} else if !s.env.cfg.deferred && reloadDue {
+			} else if !s.env.cfg.deferred && reloadDue && st == 0 {
+				// (first step only: afterwards the entry may have been reloaded and be fresh again)
 				vAssert(inv == before+1, "c20l.stale_hit_reloads_once")
 			}
 		case 1: // BulkGet; duplicates in the request count once
